@@ -65,7 +65,9 @@ func fileCases(thorough bool) []fcase {
 			for _, v := range mt {
 				out = append(out, doc("mistyped:"+lv.name, strings.Join(lv.loc(f.Key), ".")+"="+v.Label(), M().WithPath(lv.loc(f.Key), v)))
 			}
-			if thorough || lv.name == "path" {
+			// quick: the whole alphabet at path level; at the other levels the parameters with a format / bound of
+			// their own (field-specific alphabets)
+			if thorough || lv.name == "path" || KeyAlphabet(f.Key) != nil {
 				for _, v := range FieldAlphabet(f, thorough) {
 					out = append(out, doc("alphabet:"+lv.name, strings.Join(lv.loc(f.Key), ".")+"="+v.Label(), M().WithPath(lv.loc(f.Key), v)))
 				}
@@ -423,7 +425,7 @@ func hostileTexts() []string {
 		"", "\n", " ", "\t", "\x00", "\xff\xfe", "\xef\xbb\xbf", "\xef\xbb\xbfpaths:\n", "---\n", "---\n---\n", "--- a\n--- b\n", "...\n",
 		"x", "1", "null", "~", "true", "[]", "{}", "- a\n- b\n", "? a\n: b\n", "? [a]\n: b\n", "? {a: b}\n: c\n",
 		"paths:\n  1:\n", "paths:\n  1.5:\n", "paths:\n  true:\n", "paths:\n  null:\n", "paths:\n  ~:\n", "paths:\n  ? [a]\n  : b\n",
-		"paths:\n  p:\n  p:\n", "logLevel: info\nlogLevel: debug\n", "paths:\n  p: &a\n    source: publisher\n  q: *a\n",
+		"paths:\n  \"\":\n", "paths:\n  \"\":\n    source: publisher\n", "paths:\n  p:\n  p:\n", "logLevel: info\nlogLevel: debug\n", "paths:\n  p: &a\n    source: publisher\n  q: *a\n",
 		"a: &x 1\nlogLevel: *x\n", "logLevel: *nope\n", "paths:\n  p: *nope\n", "x: &x\n  <<: *x\n", "base: &b {source: publisher}\npaths:\n  p:\n    <<: *b\n",
 		"paths:\n  p:\n    <<: 1\n", "paths:\n  p:\n    <<: [1, 2]\n", "logLevel: !!binary aW5mbw==\n", "readTimeout: !!float 10\n", "logLevel: !!str info\n",
 		"logLevel: !custom info\n", "logLevel: !!map info\n", "paths: !!seq {}\n", "writeQueueSize: !!int \"512\"\n", "writeQueueSize: 0x200\n",
